@@ -31,6 +31,15 @@ Proof.
   intros ck st Hin. unfold c, mkcid in Hin. cbn [c_checks] in Hin. apply in_map_iff in Hin as [k [<- _]].
   destruct k; reflexivity.
 Qed.
+(* a Reader used without `with` whose pass cannot even start (broken container, missing sheet), closed by hand: nothing is
+   returned, the error is raised, and close() judges the end checks on freshly reset states - never on what an earlier
+   run left in the CID *)
+Theorem failed_pass_is_a_run_of_its_own : forall (CS : Type) (c : cid CS) m limit sts,
+  let oc := snd (exec c sts (OpByHand m limit [] true)) in
+  oc_outs oc = [] /\ (exists e, oc_raised oc = Some e) /\
+  oc_writes oc = [snd (fst (close c (resets (c_checks c)) (rs_loc (start c))))].
+Proof. intros CS. exact failed_pass_lemma. Qed.
+
 (* the hypothesis is needed: with a check that forgets its keys in cleanup(), finalizing an abandoned reader after the
    first row of the next run lets a duplicate through *)
 Example late_finalisation_matters_when_cleanup_forgets :
